@@ -115,7 +115,7 @@ def run_tlc(module, cfg, *, tag, workers=16, extra=(), timeout=3600, env=None, u
         meta["cached"] = True
         meta["lines_path"] = out_path
         return meta
-    work = os.path.join(BUILD, "tlc", key)
+    work = os.path.join(BUILD, "tlc", "%s.%d" % (key, os.getpid()))
     shutil.rmtree(work, ignore_errors=True)
     os.makedirs(work)
     cfg_path = os.path.join(work, module + ".cfg")
@@ -136,7 +136,7 @@ def run_tlc(module, cfg, *, tag, workers=16, extra=(), timeout=3600, env=None, u
     t0 = time.time()
     stats = {"module": module, "tag": tag, "key": key, "cmd": " ".join(cmd[cmd.index("tlc2.TLC"):]), "errors": [],
              "generated": 0, "distinct": 0, "depth": 0, "coverage": {}, "zero_cov": [], "lines": 0}
-    tmp_out = out_path + ".tmp"
+    tmp_out = "%s.tmp.%d" % (out_path, os.getpid())       # concurrent checks may compute the same key
     log_path = os.path.join(work, "tlc.log")
     proc = subprocess.Popen(cmd, stdout=subprocess.PIPE, stderr=subprocess.STDOUT, cwd=work, env=e, text=True,
                             errors="replace")
@@ -188,8 +188,9 @@ def run_tlc(module, cfg, *, tag, workers=16, extra=(), timeout=3600, env=None, u
     stats["ok"] = ok
     if ok:
         os.replace(tmp_out, out_path)
-        with open(meta_path, "w") as f:
+        with open("%s.tmp.%d" % (meta_path, os.getpid()), "w") as f:
             json.dump(stats, f)
+        os.replace("%s.tmp.%d" % (meta_path, os.getpid()), meta_path)
         shutil.rmtree(work, ignore_errors=True)
     else:
         os.replace(tmp_out, os.path.join(work, "lines.gz"))
